@@ -40,14 +40,17 @@ func (v *Vue) evalVShow(ctx VueContext, n *html.Node) error {
 func (v *Vue) setStyleProperty(n *html.Node, property, value string) {
 	styleVal := helpers.GetAttr(n, "style")
 
-	// Parse existing styles
-	styleMap := parseStyleString(styleVal)
+	// Parse existing styles, keeping the declaration order
+	keys, styleMap := parseStyleList(styleVal)
+	if _, exists := styleMap[property]; !exists {
+		keys = append(keys, property)
+	}
 	styleMap[property] = value
 
 	// Rebuild style string
-	var styles []string
-	for k, v := range styleMap {
-		styles = append(styles, k+":"+v+";")
+	styles := make([]string, 0, len(keys))
+	for _, k := range keys {
+		styles = append(styles, k+":"+styleMap[k]+";")
 	}
 	helpers.AppendAttr(n, "style", strings.Join(styles, ""))
 }
